@@ -357,7 +357,7 @@ def patch_world_internal_names(world):
 # guided random schedules
 
 PROFILES = ["set", "allocate", "input", "set-mismatch", "lonely", "welcome-error", "crowded", "fail-initial",
-            "late-peer", "drops", "welcome-error-later", "third"]
+            "late-peer", "drops", "welcome-error-later", "third", "third-alone"]
 
 
 def summarize(W, ob):
@@ -378,7 +378,7 @@ def guided(seed, n_ops, profile, welcome_error=None, finish_run=False):
     with World(seed=seed, welcome_error=we) as W:
         patch_world_internal_names(W)
         W.add_client(delegated=True)
-        npeers = 0 if profile in ("lonely", "fail-initial", "welcome-error") else (2 if profile == "crowded" else 1)
+        npeers = 0 if profile in ("lonely", "fail-initial", "welcome-error", "third-alone") else (2 if profile == "crowded" else 1)
         for _ in range(npeers):
             W.add_client(delegated=True)
         ob = Observer(W, 0)
@@ -438,7 +438,7 @@ def guided(seed, n_ops, profile, welcome_error=None, finish_run=False):
                     choices += [["swapmsg", 0, rng.randrange(4), rng.randrange(4)]] * 2
                 # a third participant: the mailbox relays a message whose side is neither ours nor the peer's
                 # (a stranger's well-formed PAKE element, or bytes that open under no key), at any time
-                if (profile == "third" or rng.random() < 0.02) and c0.conn.sp._listening:
+                if (profile in ("third", "third-alone") or rng.random() < 0.02) and c0.conn.sp._listening:
                     ph3 = rng.choice(["pake", "pake", "pake", "version", "version", "0", "1", "dilate-0", "foo"])
                     if ph3 == "pake":
                         from spake2 import SPAKE2_Symmetric
@@ -459,7 +459,7 @@ def guided(seed, n_ops, profile, welcome_error=None, finish_run=False):
                                      "random32": dict_to_bytes({"pake_v1": "53" + bytes(rng.randrange(256) for _ in range(32)).hex()})}[kind]
                     else:
                         body3 = bytes(rng.randrange(256) for _ in range(rng.choice([0, 24, 40, 60])))
-                    choices += [["inject", 0, "7h1rd51de", ph3, body3.hex()]] * (3 if profile == "third" else 1)
+                    choices += [["inject", 0, "7h1rd51de", ph3, body3.hex()]] * (3 if profile in ("third", "third-alone") else 1)
             if c0.svc.stopping is not None and not c0.svc.stopping.called:
                 choices += [["svc_stopped", 0]] * 4
             if c0.eq._calls:
